@@ -1,13 +1,26 @@
-use rusty_parser::ArrayDimension;
+use rusty_common::AtPos;
+use rusty_parser::{ArrayDimension, ExpressionPos, TypeQualifier};
 
 use crate::converter::common::{Convertible, ConvertibleIn};
-use crate::core::{LintErrorPos, LinterContext};
+use crate::core::{CanCastTo, LintError, LintErrorPos, LinterContext};
 
 impl Convertible for ArrayDimension {
     fn convert(self, ctx: &mut LinterContext) -> Result<Self, LintErrorPos> {
-        Ok(Self {
-            lbound: self.lbound.convert_in_default(ctx)?,
-            ubound: self.ubound.convert_in_default(ctx)?,
-        })
+        let lbound = self.lbound.convert_in_default(ctx)?;
+        let ubound = self.ubound.convert_in_default(ctx)?;
+        if let Some(lbound) = &lbound {
+            ensure_numeric_bound(lbound)?;
+        }
+        ensure_numeric_bound(&ubound)?;
+        Ok(Self { lbound, ubound })
+    }
+}
+
+/// The bounds of an array are converted to integers when the array is allocated.
+fn ensure_numeric_bound(bound: &ExpressionPos) -> Result<(), LintErrorPos> {
+    if bound.can_cast_to(&TypeQualifier::PercentInteger) {
+        Ok(())
+    } else {
+        Err(LintError::TypeMismatch.at(bound))
     }
 }
